@@ -426,20 +426,59 @@ def prove_zero(expr, assumptions_subs=None, budget=60, numeric_points=None, nume
         return "undecided", {"reason": "numeric evaluation succeeded at %d of %d points only" % (nok, len(pts))}
     if numeric_only:
         return "numeric-ok", {"points": len(pts), "tolerance": "1e-25 relative, 50 digits"}
-    for method, f in (("expand", lambda x: sp.expand(x)),
-                      ("together+expand", lambda x: sp.expand(sp.numer(sp.together(x)))),
-                      ("expand_trig_exp", lambda x: sp.expand(sp.numer(sp.together(sp.expand(x, trig=True, power_exp=True))), trig=True, power_exp=True)),
-                      ("trig_ideal", _trig_ideal),
-                      ("simplify", lambda x: sp.simplify(x))):
-        if time.time() - t0 > budget:
+    PI = sp.Symbol("PI_", positive=True)
+    e_r = e.subs(sp.pi, PI) if not e.has(sp.sin, sp.cos, sp.exp, sp.tan) else e      # pi is an indeterminate for rational identities
+    methods = (("expand", e_r, lambda x: sp.expand(x)),
+               ("together+expand", e_r, lambda x: sp.expand(sp.numer(sp.together(x)))),
+               ("expand_trig_exp", e, lambda x: sp.expand(sp.numer(sp.together(sp.expand(x, trig=True, power_exp=True))), trig=True, power_exp=True)),
+               ("trig_ideal", e, _trig_ideal),
+               ("expand_complex", e_r, lambda x: sp.expand(sp.numer(sp.together(sp.expand_complex(x))))),
+               ("simplify", e, lambda x: sp.simplify(x)))
+    if not e.has(sp.I, sp.Abs, sp.re, sp.im):
+        methods = tuple(m_ for m_ in methods if m_[0] != "expand_complex")
+    if not e.has(sp.sin, sp.cos, sp.exp, sp.sqrt):
+        methods = tuple(m_ for m_ in methods if m_[0] not in ("trig_ideal", "expand_trig_exp"))
+    for method, ex_, f in methods:
+        left = budget - (time.time() - t0)
+        if left <= 1:
             break
         try:
-            r = f(e)
+            with _limit(min(left, max(5, budget / 3))):
+                r = f(ex_)
             if r == 0:
                 return "proved", {"method": method, "seconds": round(time.time() - t0, 3)}
+        except _Timeout:
+            continue
         except Exception as ex:
             continue
     return "undecided", {"reason": "no normal form reached 0 within budget; numeric evaluation at %d points agrees to 1e-25" % len(pts)}
+
+
+class _Timeout(Exception):
+    pass
+
+
+class _limit:
+    """hard wall-clock limit for one normal-form attempt (SIGALRM; main thread of the worker process only)"""
+
+    def __init__(self, sec):
+        self.sec = max(1, int(sec))
+
+    def __enter__(self):
+        import signal, threading
+        self.ok = threading.current_thread() is threading.main_thread()
+        if self.ok:
+            def h(*a):
+                raise _Timeout()
+            self.old = signal.signal(signal.SIGALRM, h)
+            signal.alarm(self.sec)
+
+    def __exit__(self, *a):
+        import signal
+        if self.ok:
+            signal.alarm(0)
+            signal.signal(signal.SIGALRM, self.old)
+        return False
 
 
 def _trig_ideal(e):
